@@ -307,4 +307,58 @@ theorem startsWith_translated (s : St) (v w : Nat) :
           if_true, if_false, Option.pure_def, Option.bind_assoc, id, padd, psub] at E1 E2 ⊢
         exact ⟨E1, E2⟩
 
+/-- `explicit String(usize capacity)` into a slot that holds no object is the model's `ctorCap` -/
+theorem ctorCap_translated (s : St) (v cap : Nat) (hv : s.vars v = .empty) : Body.ctorCap s v cap = ctorCap s v cap := by
+  unfold Body.ctorCap ctorCap
+  mach_simp [hv, fresh]
+
+/-- **`String::fromPrintf` (String.cpp)**, the second site of the retry logic: the translated body — `String s(200)` in the
+    temporary slot through the translated constructor, first attempt, success test, length query, `s.detach(0, result)`, second
+    attempt, `return s` (the local is the return value) — is the model's `ctorCap` followed by `printfTail` on that slot. -/
+theorem fromPrintf_translated {s : St} (h : Inv s) {tmp : Nat} (ht : tmp < s.n) (h0 : s.vars tmp = .empty) (this : Nat)
+    (out : List Nat) :
+    Body.fromPrintf s this out tmp =
+      (ctorCap s tmp Generated.fromPrintfBuf).bind (fun s1 => (printfTail s1 tmp out).map (·.1)) := by
+  unfold Body.fromPrintf
+  simp only [ctorCap_translated s tmp _ h0, Generated.fromPrintfBuf]
+  generalize h1 : ctorCap s tmp _ = r1
+  cases r1 with
+  | none => simp
+  | some s1 =>
+    have E1 := eff_ctorCap h ht h1
+    have ht1 : tmp < s1.n := by rw [E1.n]; exact ht
+    obtain ⟨b, blk, hv1, hb1, r1, hl, hcap⟩ : ∃ b blk, s1.vars tmp = .blk b ∧ s1.heap b = some blk ∧ blk.ref = 1 ∧ blk.len = 0 ∧
+        0 < blk.cap := by
+      unfold ctorCap at h1
+      simp only [Option.bind_eq_bind, Option.bind_eq_some_iff, Option.pure_def, Option.some.injEq] at h1
+      obtain ⟨m, _, rfl⟩ := h1
+      exact ⟨(setEmpty s tmp).next, ⟨m, 0, Generated.fromPrintfBuf, 1⟩, by simp [allocSet],
+        by simp [allocSet, Generated.fromPrintfBuf], rfl, rfl, (by show 0 < Generated.fromPrintfBuf; decide)⟩
+    simp only [Option.bind_eq_bind, Option.bind_some, printfTail, desc, hv1, hb1, memOf, Option.map_some, dStr, dCap,
+      Mach.vsnprintf, vsnStore, Nat.zero_add]
+    by_cases c0 : blk.cap = 0
+    · omega
+    · simp only [c0, if_false]
+      cases hw : wr blk.bytes 0 (List.map some (List.take (blk.cap - 1) out) ++ [some 0]) with
+      | none => simp
+      | some m =>
+        simp only [Option.bind_some, upd_same, Option.map_some]
+        by_cases fit : out.length < blk.cap
+        · simp [fit, setLen, updBlk, upd_upd_same, writeOwn, hv1, hb1, r1]
+        · have S := sane_upd_live (blk' := { bytes := m, len := blk.len, cap := blk.cap, ref := 1 })
+            (sane_of_inv E1.inv) hb1 r1.symm
+          have e2 := fun n => detach_translated_eq S tmp 0 n (Or.inl (Nat.zero_le _))
+          have nf : ¬ ((out.length : Int) < 0) := by omega
+          simp only [Int.ofNat_eq_natCast, Int.natCast_nonneg, ge_iff_le, if_true, Int.toNat_natCast, fit, if_false,
+            Option.bind_some, Option.pure_def, writeOwn, hv1, hb1, r1, nf, e2]
+          generalize h3 : detach _ tmp 0 out.length = r3
+          cases r3 with
+          | none => simp [fit]
+          | some s3 =>
+            obtain ⟨b3, blk3, hv3, hb3, r3, hl3⟩ := detach_excl h3
+            have : ((out.length : Int) + 1).toNat = out.length + 1 := by omega
+            simp [desc, hv3, hb3, dStr, memOf, Mach.vsnprintf, vsnStore, setLen, updBlk, upd_upd_same, writeOwn, r3,
+              Option.bind_assoc, this, fit]
+            cases wr blk3.bytes 0 (List.map some out ++ [some 0]) <;> simp
+
 end Nstd.Str
